@@ -327,7 +327,7 @@ func c09Probes() []*c09Probe {
 func c09Dataset() *qeDataset {
 	ds := &qeDataset{}
 	pick := func(idx int, want func(bk *qeBackend) bool) *qeBackend {
-		for seed := uint64(1); seed < 4000; seed++ {
+		for seed := uint64(1); seed < 400000; seed++ {
 			bk := qeGenBackend(newVRand(seed*7919+uint64(idx)), idx, 5)
 			hosts, services := bk.table("hosts"), bk.table("services")
 			if len(hosts.Rows) < 3 || len(services.Rows) < 3 || len(bk.table("comments").Rows) < 2 || len(bk.table("downtimes").Rows) < 2 {
